@@ -14,6 +14,7 @@
 
 import numpy
 import math
+import operator
 
 from collada.common import DaeMalformedError, E, tag
 
@@ -139,24 +140,37 @@ class IndexedList(list):
             _idx[getattr(obj, attr)] = obj
 
     def _delindex(self, obj):
+        # obj has just been taken out of the list: forget it, unless the
+        # list still holds an element carrying the same key
         _idx = self._index
         for attr in self._attrs:
-            try:
-                del _idx[getattr(obj, attr)]
-            except KeyError:
-                pass
+            key = getattr(obj, attr)
+            if _idx.get(key) is obj:
+                del _idx[key]
+                for other in reversed(self):
+                    if getattr(other, attr) == key:
+                        _idx[key] = other
+                        break
+
+    def _position(self, ind):
+        # positions and slices are those of a plain list,
+        # anything else is the key of an element
+        if isinstance(ind, slice):
+            return ind
+        try:
+            return operator.index(ind)
+        except TypeError:
+            return list.index(self, self._index[ind])
 
     def __delitem__(self, ind):
-        try:
-            obj = list.__getitem__(self, ind)
-        except (IndexError, TypeError):
-            obj = self._index[ind]
-            ind = list.index(self, obj)
-        self._delindex(obj)
-        return list.__delitem__(self, ind)
-
-    def __delslice__(self, i, j):
-        return list.__delslice__(self, i, j)
+        ind = self._position(ind)
+        if isinstance(ind, slice):
+            removed = list.__getitem__(self, ind)
+        else:
+            removed = [list.__getitem__(self, ind)]
+        list.__delitem__(self, ind)
+        for obj in removed:
+            self._delindex(obj)
 
     def __getitem__(self, ind):
         try:
@@ -177,35 +191,20 @@ class IndexedList(list):
             return True
         return list.__contains__(self, item)
 
-    def __getslice__(self, i, j):
-        return IndexedList(list.__getslice__(self, i, j), self._attrs)
-
     def __setitem__(self, ind, new_obj):
-        try:
-            obj = list.__getitem__(self, ind)
-        except (IndexError, TypeError):
-            obj = self._index[ind]
-            ind = list.index(self, obj)
-        self._delindex(obj)
-        self._addindex(new_obj)
-        return list.__setitem__(ind, new_obj)
-
-    def __setslice__(self, i, j, newItems):
-        _get = self.__getitem__
-        _add = self._addindex
-        _del = self._delindex
-        newItems = list(newItems)
-        # remove indexing of items to remove
-        for ind in range(i, j):
-            _del(_get(ind))
-        # add new indexing
-        if isinstance(newItems, IndexedList):
-            self._index.update(newItems._index)
+        ind = self._position(ind)
+        if isinstance(ind, slice):
+            removed = list.__getitem__(self, ind)
+            added = list(new_obj)
+            list.__setitem__(self, ind, added)
         else:
-            for obj in newItems:
-                _add(obj)
-        # replace items
-        return list.__setslice__(self, i, j, newItems)
+            removed = [list.__getitem__(self, ind)]
+            added = [new_obj]
+            list.__setitem__(self, ind, new_obj)
+        for obj in removed:
+            self._delindex(obj)
+        for obj in added:
+            self._addindex(obj)
 
     def append(self, obj):
         self._addindex(obj)
@@ -213,43 +212,42 @@ class IndexedList(list):
 
     def extend(self, newList):
         newList = list(newList)
-        if isinstance(newList, IndexedList):
-            self._index.update(newList._index)
-        else:
-            _add = self._addindex
-            for obj in newList:
-                _add(obj)
-        return list.extend(self, newList)
+        list.extend(self, newList)
+        for obj in newList:
+            self._addindex(obj)
+
+    def __iadd__(self, newList):
+        self.extend(newList)
+        return self
+
+    def __imul__(self, n):
+        list.__imul__(self, n)
+        if len(self) == 0:
+            self._index.clear()
+        return self
+
+    def clear(self):
+        list.clear(self)
+        self._index.clear()
 
     def insert(self, ind, new_obj):
-        # ensure that ind is a numeric index
-        try:
-            obj = list.__getitem__(self, ind)
-        except (IndexError, TypeError):
-            obj = self._index[ind]
-            ind = list.index(self, obj)
+        ind = self._position(ind)
+        list.insert(self, ind, new_obj)
         self._addindex(new_obj)
-        return list.insert(self, ind, new_obj)
 
     def pop(self, ind=-1):
-        # ensure that ind is a numeric index
-        try:
-            obj = list.__getitem__(self, ind)
-        except (IndexError, TypeError):
-            obj = self._index[ind]
-            ind = list.index(self, obj)
+        ind = self._position(ind)
+        obj = list.pop(self, ind)
         self._delindex(obj)
-        return list.pop(self, ind)
+        return obj
 
     def remove(self, ind_or_obj):
         try:
             obj = self._index[ind_or_obj]
-            ind = list.index(self, obj)
         except KeyError:
-            ind = list.index(self, ind_or_obj)
-            obj = list.__getitem__(self, ind)
+            obj = ind_or_obj
+        list.remove(self, obj)
         self._delindex(obj)
-        return list.remove(self, ind)
 
 
 def _correctValInNode(outernode, tagname, value):
